@@ -4,29 +4,35 @@
    create_db or split between create_db and update.  The declarative invariants restate each
    strategy from the ARRIVALS (sets, classes), independently of the incremental algorithm.       *)
 EXTENDS GffDB, Json
-CONSTANT MaxArr, Wide, Quick, PrintMod
+CONSTANT MaxArr, Wide, Quick, PrintMod, Importer      \* Importer "gff3" | "gtf"
 K == <<75>>  P1 == <<112, 49>>  P2 == <<112, 50>>  TN == <<110>>
 Src2 == <<116>>    \* source "t" (default source is "s")
 \* arrival options: column vector x attribute n x Parent
 Vecs == IF Wide THEN {"A", "B", "As", "At"} ELSE {"A", "B", "As"}
 Pars == IF Wide THEN {<<>>, <<P1>>, <<P2>>} ELSE {<<>>, <<P1>>, <<P2>>}
-Arr(v, n, p) == LET f == MkF(K, T_exon, p, <<<<TN, <<n>>>>>>) IN
+Arr(v, n, p) == LET f == IF Importer = "gtf"
+                         THEN [MkF(<<>>, T_gene, <<>>, <<>>) EXCEPT !.attrs = <<<<T_gene_id, <<K>>>>, <<TN, <<n>>>>>> \o (IF p = <<>> THEN <<>> ELSE <<<<<<120>>, p>>>>)]
+                         ELSE MkF(K, T_exon, p, <<<<TN, <<n>>>>>>) IN
                 CASE v = "A" -> f [] v = "B" -> [f EXCEPT !.start = 2] [] v = "As" -> [f EXCEPT !.source = Src2] [] v = "At" -> [f EXCEPT !.strand = <<45>>]
 Options == {Arr(v, n, p) : v \in Vecs, n \in {<<49>>, <<50>>}, p \in Pars}
 Strategies == {"error", "warning", "replace", "create_unique", "merge"}
 Fmfs == IF Quick THEN {<<>>, <<"source">>} ELSE {<<>>, <<"source">>, <<"source", "strand">>}
-Parents2 == <<MkF(P1, T_gene, <<>>, <<>>), MkF(P2, T_gene, <<>>, <<>>)>>
+Parents2 == IF Importer = "gtf"
+            THEN <<[MkF(<<>>, T_gene, <<>>, <<>>) EXCEPT !.attrs = <<<<T_gene_id, <<P1>>>>>>], [MkF(<<>>, T_gene, <<>>, <<>>) EXCEPT !.attrs = <<<<T_gene_id, <<P2>>>>>>]>>
+            ELSE <<MkF(P1, T_gene, <<>>, <<>>), MkF(P2, T_gene, <<>>, <<>>)>>
 
 \* a cheap spread of the cases: only one in PrintMod is printed for replay (all are model-checked)
 CaseHash(as, k, m) == SumSeq([i \in 1..Len(as) |-> (as[i].start * 3 + Len(ParentsOf(as[i])) * 5 + Len(as[i].source) + as[i].attrs[2][2][1][1] + (IF ParentsOf(as[i]) = <<P2>> THEN 2 ELSE 0)) * (i + 1)]) + k * 11 + Len(m) * 13
 VARIABLES arrs, strat, fmf, split, res, done
 Init == arrs \in UNION {[1..n -> Options] : n \in 1..(MaxArr - 1)} /\ strat = "" /\ fmf = <<>> /\ split = 0
         /\ res = [st |-> "none"] /\ done = FALSE
-Cfg(s, m) == [DefaultCfg EXCEPT !.strategy = s, !.fmf = m]
+GtfDialect5 == [DefaultDialect EXCEPT !.fmt = "gtf", !.kvsep = <<SP>>, !.fsep = <<SEMI, SP>>, !.quoted = TRUE, !.trail = TRUE]
+FileDialect5 == IF Importer = "gtf" THEN GtfDialect5 ELSE DefaultDialect
+Cfg(s, m) == [DefaultCfg EXCEPT !.strategy = s, !.fmf = m, !.importer = Importer, !.idspec = [kind |-> "default"]]
 \* split = 0: everything in create_db; split = k: the first k arrivals in create_db, the rest in one update
 Outcome(as, s, m, k) ==
-  IF k = 0 THEN Create(Parents2 \o as, <<>>, DefaultDialect, Cfg(s, m))
-  ELSE LET c == Create(Parents2 \o SubSeq(as, 1, k), <<>>, DefaultDialect, Cfg(s, m)) IN
+  IF k = 0 THEN Create(Parents2 \o as, <<>>, FileDialect5, Cfg(s, m))
+  ELSE LET c == Create(Parents2 \o SubSeq(as, 1, k), <<>>, FileDialect5, Cfg(s, m)) IN
        IF c.st = "raise" THEN c ELSE Update(c.db, c.ctr, SubSeq(as, k + 1, Len(as)), Cfg(s, m))
 Next == /\ ~done /\ done' = TRUE
         /\ \E last \in Options : arrs' = Append(arrs, last)
@@ -69,11 +75,12 @@ InvMerge == (OK /\ strat = "merge") =>
                            THEN Field(g, GffCols[c]) = Join(SetToSortedSeq({Field(arrs[i], GffCols[c]) : i \in Members(rep)}), <<COMMA>>)
                            ELSE SameCol(g, arrs[rep], GffCols[c])
 \* no Parent link lost or invented: level-1 relations are exactly the Parent values of what is kept
-InvLinks == (OK /\ strat # "replace") => {r \in DBF.rels : r[3] = 1} = Rel1_Decl(DBF)
+InvLinks == (OK /\ strat # "replace" /\ Importer = "gff3") => {r \in DBF.rels : r[3] = 1} = Rel1_Decl(DBF)
 \* 'replace' keeps the links of replaced versions (known finding F4): with the deviation off this holds too
-InvLinksReplace == (OK /\ strat = "replace" /\ "F4_ReplaceKeepsStaleLinks" \notin Deviations) => {r \in DBF.rels : r[3] = 1} = Rel1_Decl(DBF)
+InvLinksReplace == (OK /\ strat = "replace" /\ Importer = "gff3" /\ "F4_ReplaceKeepsStaleLinks" \notin Deviations) => {r \in DBF.rels : r[3] = 1} = Rel1_Decl(DBF)
 \* (used with a deviation switched on: TLC must then report this invariant as violated)
-InvLinksAll == OK => {r \in DBF.rels : r[3] = 1} = Rel1_Decl(DBF)
+InvLinksAll == (OK /\ Importer = "gff3") => {r \in DBF.rels : r[3] = 1} = Rel1_Decl(DBF)
+InvGtfRels == (OK /\ Importer = "gtf") => \A r \in DBF.rels : r[1] # r[2] /\ r[3] = 2 /\ r[1] = K /\ IsPrefix(K \o <<UNDER>>, r[2])
 \* the design lemma the code relies on silently: at most one merge candidate matches
 InvOneCandidate == (OK /\ strat = "merge") => \A f \in Options : OneCandidate(DBF, WithId(f), fmf)
 =============================================================================
